@@ -692,6 +692,7 @@ func c35NewLedger(env c35Env, freezer basics.Address) *Ledger {
 		}
 		app := l.applications[id]
 		app.boxes = map[string][]byte{}
+		app.boxMods = map[string][]byte{} // non-nil, so that the mock's DelBox/SetBox (which update a copy of the record) stick
 		for _, name := range c35BoxNames {
 			app.boxes[name] = make([]byte, c35BoxSize)
 		}
@@ -1014,7 +1015,7 @@ func c35AddOwn(g *c35Group, v uint64, req c35Req, viaAccess bool) {
 	sort.SliceStable(items, func(a, b int) bool { return items[a].kind == req.Slot && items[b].kind != req.Slot })
 
 	useAccess := tx.Access != nil ||
-		(viaAccess && v >= sharedResourcesVersion && len(tx.Accounts)+len(tx.ForeignAssets)+len(tx.ForeignApps)+len(tx.Boxes) == 0)
+		(viaAccess && req.Slot == "" && v >= sharedResourcesVersion && len(tx.Accounts)+len(tx.ForeignAssets)+len(tx.ForeignApps)+len(tx.Boxes) == 0)
 	if !useAccess {
 		for _, it := range items {
 			switch it.kind {
